@@ -32,7 +32,7 @@ def asbuilt():
             out.append('')
             out.append('*Limits / assumptions:* ' + c['note'])
         q = []
-        for k in ('states', 'transitions', 'executions', 'traces_validated_against_impl'):
+        for k in ('states', 'transitions', 'executions', 'evaluations', 'distinct_nontrivial', 'traces_validated_against_impl'):
             if num(cov, k) is not None: q.append('%s=%d' % (k, cov[k]))
         if ev:
             out.append('')
